@@ -4,6 +4,8 @@
 package walkcase
 
 import (
+	"os"
+	"path/filepath"
 	"syscall"
 
 	"context"
@@ -80,6 +82,10 @@ type Case struct {
 	ABS                   bool // scan roots carry an absolute Path (/vr<i>); PathsToExtract and DirsToSkip are given as absolute paths below root 0
 	MX, MI, CA, NExt      int
 	EK                    int // kind of the injected filesystem errors: 0 other (EIO-like), 1 permission, 2 not-exist
+	NRD                   int // 1, 2: directory handles do NOT implement fs.ReadDirFile (2: and fsys.ReadDir returns a NIL slice for an empty directory): the walk falls back to fsys.ReadDir (whole listing at once);
+	// the only read fault that exists then is "the listing cannot be read" = Read[d][0]
+	OUT  int // (with ABS) 1: DirsToSkip, 2: PathsToExtract additionally names an absolute path that lies under no scan root: the scan must be refused
+	REAL bool // the tree is materialised in a temporary directory and scanned through scalibrfs.RealFSScanRoots (no faults, one root)
 	Paths, Skip           []string
 	HasRx, HasGl          bool
 	RxSet, GlSet          []string // directory paths the engines match (filled by the generator with the real engines)
@@ -175,6 +181,9 @@ func keys(m map[string]bool) []string {
 func (c *Case) Line() string {
 	var sb strings.Builder
 	fmt.Fprintf(&sb, "walk ug=%d,isd=%d,rs=%d,mx=%d,mi=%d,eofs=%d,cb=%d,ca=%d,next=%d,ek=%d,abs=%d,sap=%d", b(c.UG), b(c.ISD), b(c.RS), c.MX, c.MI, b(c.EOFS), b(c.CB), c.CA, c.NExt, c.EK, b(c.ABS), b(c.SAP))
+	if c.NRD > 0 || c.OUT > 0 || c.REAL { // only printed when set, so that older case lines (corpus, saved seeds) stay byte-identical
+		fmt.Fprintf(&sb, ",nrd=%d,out=%d,real=%d", c.NRD, c.OUT, b(c.REAL))
+	}
 	fmt.Fprintf(&sb, " %s %s", hexPaths(c.Paths, ";"), hexPaths(c.Skip, ";"))
 	set := func(has bool, s []string) string {
 		if !has {
@@ -342,6 +351,12 @@ func ParseLine(l string) *Case {
 			c.ABS = n == 1
 		case "sap":
 			c.SAP = n == 1
+		case "nrd":
+			c.NRD = n
+		case "out":
+			c.OUT = n
+		case "real":
+			c.REAL = n == 1
 		}
 	}
 	c.Paths = unhexPaths(t[2], ";")
@@ -458,7 +473,18 @@ type MemFS struct {
 	f      Faults
 	// Slow makes every Open sleep (used by the race runs of C16).
 	Slow time.Duration
+	// NoReadDirFile: Open returns directory handles WITHOUT a ReadDir method, so that the walk has to use fsys.ReadDir
+	NoReadDirFile bool
+	// NilEmptyListing: ReadDir returns a nil slice (a perfectly valid empty list) for a directory without entries
+	NilEmptyListing bool
 }
+
+// plainFile hides the ReadDir method of a directory handle (fs.File only).
+type plainFile struct{ f *file }
+
+func (p plainFile) Stat() (fs.FileInfo, error) { return p.f.Stat() }
+func (p plainFile) Read(b []byte) (int, error) { return p.f.Read(b) }
+func (p plainFile) Close() error               { return p.f.Close() }
 
 // NewMemFS indexes the tree.
 func NewMemFS(r Root) *MemFS {
@@ -623,6 +649,9 @@ func (m *MemFS) Open(name string) (fs.File, error) {
 			fl.data = make([]byte, n.Size)
 		}
 	}
+	if m.NoReadDirFile && n.Kind == 'd' {
+		return plainFile{fl}, nil
+	}
 	return fl, nil
 }
 
@@ -645,7 +674,13 @@ func (m *MemFS) ReadDir(name string) ([]fs.DirEntry, error) {
 	if !ok {
 		return nil, &fs.PathError{Op: "readdir", Path: name, Err: fs.ErrNotExist}
 	}
-	var out []fs.DirEntry
+	if m.NoReadDirFile && m.f.Read[name][0] { // the whole listing is read by ONE call: it fails when "read 0" is planned to fail
+		return nil, &fs.PathError{Op: "readdir", Path: name, Err: errInj}
+	}
+	out := []fs.DirEntry{}
+	if m.NilEmptyListing {
+		out = nil
+	}
 	for _, k := range n.Kids {
 		out = append(out, info{k, true})
 	}
@@ -767,9 +802,26 @@ func Run(c *Case, mk func(*scalibr.ScanConfig), slow time.Duration) string {
 		exs = append(exs, fakeEx{id: e, c: c, req: req, calls: &calls, n: &n, stop: cancel})
 	}
 	var roots []*scalibrfs.ScanRoot
+	realRoot := ""
+	if c.REAL {
+		dir, err := materialise(c.Roots[0].Tree)
+		if dir != "" {
+			defer os.RemoveAll(filepath.Dir(dir))
+		}
+		if err != nil {
+			return "err=harness-real:" + hx.Hex(err.Error()) + " pkgs=- st=- fnd=- vis=0 calls=-"
+		}
+		realRoot = dir
+		roots = scalibrfs.RealFSScanRoots(dir)
+	}
 	for i, r := range c.Roots {
+		if c.REAL {
+			break
+		}
 		m := NewMemFS(r)
 		m.Slow = slow
+		m.NoReadDirFile = c.NRD > 0
+		m.NilEmptyListing = c.NRD == 2
 		sr := &scalibrfs.ScanRoot{FS: m}
 		if c.ABS {
 			sr.Path = fmt.Sprintf("/vr%d", i)
@@ -777,19 +829,34 @@ func Run(c *Case, mk func(*scalibr.ScanConfig), slow time.Duration) string {
 		roots = append(roots, sr)
 	}
 	paths, skip := c.Paths, c.Skip
-	if c.ABS {
-		mkAbs := func(ps []string) []string {
+	if c.ABS || c.REAL {
+		// absolute PathsToExtract / DirsToSkip. Requested paths lie below root 0 (Scan refuses requested paths with several roots);
+		// the i-th skipped directory is named below root i mod #roots: DirsToSkip is ONE list of root-relative paths for all roots
+		mkAbs := func(ps []string, spread bool) []string {
 			var o []string
-			for _, p := range ps {
+			for i, p := range ps {
+				root := "/vr0"
+				if spread && len(c.Roots) > 1 {
+					root = fmt.Sprintf("/vr%d", i%len(c.Roots))
+				}
+				if c.REAL {
+					root = realRoot
+				}
 				if p == "." {
-					o = append(o, "/vr0")
+					o = append(o, root)
 				} else {
-					o = append(o, "/vr0/"+p)
+					o = append(o, root+"/"+p)
 				}
 			}
 			return o
 		}
-		paths, skip = mkAbs(c.Paths), mkAbs(c.Skip)
+		paths, skip = mkAbs(c.Paths, false), mkAbs(c.Skip, true)
+		if c.OUT == 1 {
+			skip = append(skip, "/nowhere/x")
+		}
+		if c.OUT == 2 {
+			paths = append(paths, "/nowhere/x")
+		}
 	}
 	col := &coll{}
 	cfg := &scalibr.ScanConfig{FilesystemExtractors: exs, UseGitignore: c.UG, IgnoreSubDirs: c.ISD, ReadSymlinks: c.RS, MaxFileSize: c.MX, MaxInodes: c.MI,
@@ -810,6 +877,9 @@ func Run(c *Case, mk func(*scalibr.ScanConfig), slow time.Duration) string {
 				cls = "maxinodes"
 			case strings.Contains(msg, "context canceled"):
 				cls = "ctx"
+			case strings.Contains(msg, "no scan root specified"), strings.Contains(msg, "can't extract specific files with several scan roots"),
+				strings.Contains(msg, "path not relative to any of the scan roots"):
+				cls = "cfg" // the scan was refused before any walk
 			}
 			if len(r.Inventory.Packages) != 0 || len(r.PluginStatus) != 0 {
 				cls += "+nonempty"
@@ -822,7 +892,11 @@ func Run(c *Case, mk func(*scalibr.ScanConfig), slow time.Duration) string {
 			ls := make([]string, len(p.Locations))
 			for i, l := range p.Locations {
 				if c.SAP { // the absolute form of a location is the scan root joined with the relative one
-					if rel, ok := strings.CutPrefix(l, "/vr0/"); ok {
+					pre := "/vr0/"
+					if c.REAL {
+						pre = realRoot + "/"
+					}
+					if rel, ok := strings.CutPrefix(l, pre); ok {
 						l = rel
 					} else {
 						l = "!not-under-root:" + l
@@ -847,4 +921,83 @@ func Run(c *Case, mk func(*scalibr.ScanConfig), slow time.Duration) string {
 		body += " pkgs=- st=- fnd=-"
 	}
 	return fmt.Sprintf("%s vis=%d calls=%s", body, col.n, hx.Join(calls, ";"))
+}
+
+// materialise writes the tree into a fresh temporary directory <tmp>/root (regular files of the given size, .gitignore files with their
+// content, symlinks to files of the given size kept OUTSIDE the root, named pipes), then re-orders every node's Kids to the order in which the
+// operating system lists the directory (the order ReadDir(1) yields), so that the case line describes the listing the scan will see.
+func materialise(t *Node) (string, error) {
+	base := os.Getenv("TMPDIR")
+	if _, err := os.Stat("/dev/shm"); err == nil && base == "" {
+		base = "/dev/shm"
+	}
+	tmp, err := os.MkdirTemp(base, "walkreal-")
+	if err != nil {
+		return "", err
+	}
+	root := filepath.Join(tmp, "root")
+	targets := filepath.Join(tmp, "targets")
+	if err := os.Mkdir(targets, 0o755); err != nil {
+		return root, err
+	}
+	nt := 0
+	var mk func(n *Node, gi []Pat) error
+	mk = func(n *Node, gi []Pat) error {
+		p := root
+		if n.Path != "." {
+			p = filepath.Join(root, filepath.FromSlash(n.Path))
+		}
+		switch n.Kind {
+		case 'd':
+			if err := os.Mkdir(p, 0o755); err != nil {
+				return err
+			}
+			for _, k := range n.Kids {
+				if err := mk(k, n.Gi); err != nil {
+					return err
+				}
+			}
+			// listing order of the operating system
+			f, err := os.Open(p)
+			if err != nil {
+				return err
+			}
+			ents, err := f.ReadDir(-1)
+			f.Close()
+			if err != nil {
+				return err
+			}
+			byName := map[string]*Node{}
+			for _, k := range n.Kids {
+				byName[info{k, true}.Name()] = k
+			}
+			var kids []*Node
+			for _, e := range ents {
+				if k, ok := byName[e.Name()]; ok {
+					kids = append(kids, k)
+				}
+			}
+			if len(kids) != len(n.Kids) {
+				return fmt.Errorf("listing of %s has %d of %d entries", n.Path, len(kids), len(n.Kids))
+			}
+			n.Kids = kids
+		case 'r':
+			data := make([]byte, n.Size)
+			if strings.HasSuffix(n.Path, ".gitignore") {
+				data = GiContent(gi)
+			}
+			return os.WriteFile(p, data, 0o644)
+		case 'l', 'L':
+			nt++
+			tg := filepath.Join(targets, fmt.Sprintf("t%d", nt))
+			if err := os.WriteFile(tg, make([]byte, n.Size), 0o644); err != nil {
+				return err
+			}
+			return os.Symlink(tg, p)
+		case 's':
+			return syscall.Mkfifo(p, 0o644)
+		}
+		return nil
+	}
+	return root, mk(t, nil)
 }
